@@ -39,9 +39,9 @@ type edit struct {
 
 type stats struct {
 	R1, R2, R2Skipped, R3, R4, R5, R6, R6Skipped, R7 int
-	Files                                        int
-	R2SkippedAt                                  []string
-	R6SkippedAt                                  []string
+	Files                                            int
+	R2SkippedAt                                      []string
+	R6SkippedAt                                      []string
 }
 
 var (
